@@ -875,7 +875,7 @@ def _deton_bracket(S, fd, g: CFG, cx: Ctx, c: ast.Call):
         ve = kwarg(e.value, "wallVelocity", 0)
         if eqx(ve, lo):
             continue
-        if eqx(ve, hi) and g.must_pass(e, cp, lambda q: isinstance(q, ast.Assign) and eqx(q, f"{lo} = {hi}")):
+        if eqx(ve, hi) and g.must_pass(e, cp, lambda q: _copies(q, lo, hi)):
             continue
         return False, f"`{rlo}` may hold an evaluation at another velocity than `{lo}`", None
     # wall-parameter guess: element 1 of the upper evaluation (stored by unpacking or by indexing that evaluation)
@@ -925,7 +925,7 @@ def r01_2(chk: Check):
         at = g.node_of(calls[0])
         for phi in PHI:
             # the pressure at the lower end: the local the upper pressure is shifted into for the next step
-            plo = [b["PLO"] for st in g.nodes if isinstance(st, ast.Assign) for b in [match(st, f"__PLO = {phi}")] if b is not None]
+            plo = [t.id for st in g.nodes for t, v in _pairs(st) if isinstance(t, ast.Name) and isinstance(v, ast.Name) and v.id == phi]
             guard_ok = guard_ok or any(_holds_under(g, at, (f"{phi} >= 0", f"0 >= {p}"), cx) for p in plo)
     chk.ob("R01.2", fd.where(), "that refinement happens only when the pressure changes sign from <= 0 to >= 0 between them", guard_ok, key="deton-sign")
     fm = S.func("manager:WallGoManager.solveWallDetonation")
@@ -1340,6 +1340,21 @@ def r01_8(chk: Check):
            "through the non-saturated branch of the test)", ok, key="saturation|not-success")
     chk.floor("R01.8", 2)
 
+def _pairs(st) -> list:
+    """(target, value) pairs of an assignment: element-wise for `a, b = e1, e2`, else the single pair"""
+    if not isinstance(st, ast.Assign) or len(st.targets) != 1:
+        return []
+    t, v = st.targets[0], st.value
+    if isinstance(t, (ast.Tuple, ast.List)) and isinstance(v, (ast.Tuple, ast.List)) and len(t.elts) == len(v.elts):
+        return list(zip(t.elts, v.elts))
+    return [(t, v)]
+
+
+def _copies(st, dst: str, src_: str) -> bool:
+    """statement st stores the value of local src_ into local dst (alone or as one component of a parallel assignment)"""
+    return any(isinstance(t, ast.Name) and t.id == dst and isinstance(v, ast.Name) and v.id == src_ for t, v in _pairs(st))
+
+
 def _stored_names(st) -> set:
     out = set()
     for t in (st.targets if isinstance(st, ast.Assign) else [st.target] if isinstance(st, (ast.AnnAssign, ast.AugAssign)) else []):
@@ -1454,8 +1469,11 @@ def r01_10(chk: Check):
         for t, pol in guards:
             if isinstance(t, tuple):
                 continue
-            b = match(t, "len(__L) == 0", cx)
+            b = match(t, "len(__L) == 0", cx) or match(t, "not __L", cx) or match(t, "__L == []", cx)
             if b and pol:
+                L = b["L"]
+            b = match(t, "len(__L) != 0", cx) or match(t, "len(__L) > 0", cx) or (match(t, "__L", cx) if isinstance(t, ast.Name) else None)
+            if b and not pol:
                 L = b["L"]
         if isinstance(st, ast.Assign):
             b = match(st, "__V = vmin")
@@ -1468,7 +1486,7 @@ def r01_10(chk: Check):
                 P = b["P"]
     if None in (L, P, V):
         raise AnchorMissing(f"findWallVelocityDetonation: roles not found (solutions list {L}, last pressure {P}, last probed velocity {V})")
-    classify = [t for t in g.nodes if g.kind.get(t) == "test" and eqx(t, f"len({L}) == 0", cx)]
+    classify = [t for t in g.nodes if g.kind.get(t) == "test" and any(eqx(t, x, cx) for x in (f"len({L}) == 0", f"not {L}", f"{L} == []", f"len({L}) != 0", f"len({L}) > 0", L))]
     in_loop = {id(y) for y in ast.walk(w)}
     appends = [q for q in g.nodes if id(q) in in_loop and isinstance(q, ast.Expr) and has(q, f"{L}.append")]
 
@@ -1501,6 +1519,39 @@ def r01_10(chk: Check):
     chk.floor("R01.10", 3)
 
 
+def r01_11(chk: Check):
+    """solveWall trusts a cached evaluation handed in by its caller: the guard that turns a non-converged negative pressure at the top of the window
+    into ERROR applies only to an evaluation solveWall made itself.  The only caller entitled to hand one in is the detonation scan, where R01.2
+    proves the cached upper pressure is >= 0 (no runaway verdict can be drawn from it).  Every other call lets solveWall evaluate both ends."""
+    S = chk.src
+    cnt = 0
+    for m in S.modules.values():
+        for q, f in m.funcs.items():
+            if not isinstance(f.node, (ast.FunctionDef, ast.AsyncFunctionDef)) or f.parent is not None:
+                continue
+            for c in calls_in(f.node, "solveWall"):
+                if not (isinstance(c.func, ast.Attribute) and c.func.attr == "solveWall"):
+                    continue
+                params = ("wallVelocityMin", "wallVelocityMax", "wallParamsGuess", "wallPressureResultsMin", "wallPressureResultsMax")
+                if len(c.args) < 3 and not any(k.arg in params for k in c.keywords):
+                    continue        # another method of that name (WallGoManager.solveWall(settings))
+                cnt += 1
+                cached = [n(a) for nm, i in (("wallPressureResultsMin", 3), ("wallPressureResultsMax", 4)) for a in [kwarg(c, nm, i)]
+                          if a is not None and not (isinstance(a, ast.Constant) and a.value is None)]
+                ok = not cached or f.qual == "EOM.findWallVelocityDetonation"
+                chk.ob("R01.11", f.where(c), f"{f.qual}: cached pressure evaluations are handed to solveWall only by the detonation scan (whose upper pressure is proven >= 0); "
+                       "elsewhere solveWall evaluates the window ends itself, so its convergence guard applies", ok, f"passes {cached}", key=f"cached-evaluations|{f.qual}")
+    if cnt < 2:
+        raise AnchorMissing("calls of EOM.solveWall not found")
+    chk.floor("R01.11", 2)
+
+
 def rules(chk: Check) -> None:
-    for grp in (r01_7, r01_8, r01_1, r01_2, r01_3, r01_4, r01_5, r01_6, r01_9, r01_10):
+    for grp in (r01_7, r01_8, r01_1, r01_2, r01_3, r01_4, r01_5, r01_6, r01_9, r01_10, r01_11):
         chk.stage(grp, chk)
+    # R01.12: every pressure evaluation inside the iteration receives the boundary data in the roles they were computed for (T+ / T- / vevs / c1 / c2:
+    # shared with C04 R04.3) -- a swapped pair changes the branch of the plasma equations and the ends of the reported profiles
+    from ..core import Remap
+    from . import c04
+    chk.stage(c04.r04_3, Remap(chk, {"R04.3": "R01.12"}), c04._Point(chk.src))
+    chk.floor("R01.12", 3)
